@@ -317,6 +317,12 @@ impl Im2Col<'_, i8> {
             for start_row in rows.clone().step_by(K_TILE) {
                 for i in 0..K_TILE {
                     let k = start_row + i;
+
+                    // Rows added to pad the offset arrays to a multiple of
+                    // `K_TILE` are not part of the matrix. Their offsets may
+                    // combine with column offsets to form a valid location.
+                    let row_in_range = k < rows.end;
+
                     let row_x_offset = ops.splat(unsafe { *row_x_offsets.get_unchecked(k) });
                     let row_y_offset = ops.splat(unsafe { *row_y_offsets.get_unchecked(k) });
                     let row_chan_offset = ops.splat(unsafe { *row_chan_offsets.get_unchecked(k) });
@@ -348,11 +354,19 @@ impl Im2Col<'_, i8> {
 
                             if CAST_B_U8 {
                                 let src_elem = shift_cast_i8_u8(src_elem);
-                                let elem = if pad_mask_array[idx] { src_elem } else { 0 };
+                                let elem = if pad_mask_array[idx] && row_in_range {
+                                    src_elem
+                                } else {
+                                    0
+                                };
                                 col_sums[c_block][idx] += elem as i32;
                                 out_elem.write(elem as i8);
                             } else {
-                                let elem = if pad_mask_array[idx] { src_elem } else { 0 };
+                                let elem = if pad_mask_array[idx] && row_in_range {
+                                    src_elem
+                                } else {
+                                    0
+                                };
                                 col_sums[c_block][idx] += elem as i32;
                                 out_elem.write(elem);
                             }
